@@ -69,6 +69,10 @@ class OrphanScn:
             act = P["activity"]
             w.exploring = bool(P.get("explore"))
             chans = []
+            if P.get("warm"):
+                # the worker is not fresh: an earlier remote_exec ran to completion (its pool was idle once)
+                for _ in range(P["warm"]):
+                    gw.remote_exec("channel.send(1)").waitclose(10)
             if ACTIVITIES[act] is not None:
                 chans.append(gw.remote_exec(ACTIVITIES[act]))
             if act == "two":
@@ -192,6 +196,22 @@ def run(tier: str, only=None) -> int:
             if act in ("recv", "sink", "swallow-recv", "idle", "send") and backend != "gevent":
                 Ps = {"activity": act, "backend": backend, "N": N, "ks": [N], "explore": True}
                 st = harness.run_exploration(rep, PID, name + "/die-idle-stmt", OrphanScn, Ps, {"cut": 1, "ps": 0, "pl": 1 if tier == "quick" else 2, "free": 1}, stmt=stmt, max_execs=cap)
+                rungs |= {o[0] for o in st.outcomes}
+    # the same activities on a worker with a history (earlier bodies ran to completion)
+    for backend in ("thread", "main_thread_only"):
+        for act in ("sleep", "busy", "swallow", "recv", "two", "idle"):
+            for warm in (1, 2):
+                name = f"orphan-warm{warm}/{backend}:{act}"
+                if only and only not in name:
+                    continue
+                if tier == "quick" and (warm == 2 and act not in ("sleep", "swallow")):
+                    continue
+                P = {"activity": act, "backend": backend, "N": None, "warm": warm}
+                ref = explorer.run_once(OrphanScn.scenario, OrphanScn.oracle, P, [])
+                N, boot = ref.outcome[1], ref.outcome[2]
+                sub = sorted(set(range(boot, N + 1, 7 if tier == "quick" else 1)) | {N})
+                Pw = {"activity": act, "backend": backend, "N": N, "ks": sub, "warm": warm, "explore": True}
+                st = harness.run_exploration(rep, PID, name, OrphanScn, Pw, {"cut": 1, "ps": 1, "free": 0} if tier == "quick" else {"cut": 1, "ps": 1, "free": 1}, max_execs=cap, params_desc={"death_offsets": len(sub)})
                 rungs |= {o[0] for o in st.outcomes}
     rep.cov["rungs_reached"] = sorted(r for r in rungs if r)
     if not only and not {"shutdown", "sigint", "os._exit"} <= rungs:
